@@ -45,6 +45,13 @@ VALUES = {
     "str": ("\"hi\"", True, ["\"hi\"", "Str[0x6869]", "%m.s", "\"h\" =h0, \"{h0}i\"", "Str[[0x68, 0x69] __binary_concat__]"]),
     "nestA": ("A[b: [0x0102, 5]]", True, ["A[b: [0x0102, 5]]", "A[b: [[0x01, 0x02] __binary_concat__, [2, 3] __integer_add__]]", "%m.nest"]),
     "nestB": ("B[b: [0x0102, 5]]", True, ["B[b: [0x0102, 5]]"]),
+    # the same labels in the same relative order but on DIFFERENT positions (seeded change C13-1: the shape key
+    # of a tuple recorded which labels are present, not where they sit)
+    "mixA": ("[x: 5, 7]", False, ["[x: 5, 7]", "[...[x: 5], 7]", "[x: [2, 3] __integer_add__, 7]"]),
+    "mixB": ("[5, x: 7]", False, ["[5, x: 7]", "[5, ...[x: 7]]"]),
+    "pmixA": ("P[1, y: 2, 3]", False, ["P[1, y: 2, 3]", "P[1, ...[y: 2], 3]"]),
+    "pmixB": ("P[1, 2, y: 3]", False, ["P[1, 2, y: 3]", "P[...[1, 2], y: 3]"]),
+    "pmixC": ("P[y: 1, 2, 3]", False, ["P[y: 1, 2, 3]"]),
     "fn_inc": (None, False, ["&inc", "&inc idf"]),
     "clo1": (None, False, ["1 mkf", "[0, 1] __integer_add__ mkf"]),
     "clo2": (None, False, ["2 mkf"]),
